@@ -80,6 +80,19 @@ class C13(XsProp):
                     pa = ' | '.join('push %s' % cells.fmt(a) for a in args)
                     pt = ' | '.join('push %s' % cells.fmt(a) for a in targs)
                     cs.append('%s | clone | %s | eval %s | stack | use 1 | %s | eval %s | stack' % (pre, pa, hexsrc(w), pt, hexsrc(w)))
+        # one value used twice (`dup`: both operands are the same cell): equality, comparison and collection words must answer what they
+        # answer on the untagged value - also for values that are not equal to themselves (family added after round 11)
+        shared = [('R', '7ff8000000000000'), ('R', '3ff8000000000000'), ('R', '8000000000000000'), ('I', 7), ('S', b'ab'), ('B', '1010'), ('N',),
+                  ('V', [('I', 1), ('S', b'x')]), ('M', [(('S', b'k'), ('R', '3ff8000000000000'))])]
+        # (no collection that CONTAINS a NaN here: rpds compares a vector / map with itself by pointer first, so `{ nan "k" } dup equal?`
+        #  is true while two separately built copies are unequal - sharing-dependent, the same with and without tags; see DESIGN section 11)
+        progs2 = ['dup equal?', 'dup assert-eq', 'dup 2 collect dup equal?', 'dup == ', 'dup <>', 'dup <', 'dup >=', 'dup min', 'dup max',
+                  'dup 2 collect dup 0 get swap 1 get equal?', 'dup 2 collect sort', 'dup 1 collect swap 1 collect equal?', 'dup 1 collect swap 1 collect assert-eq']
+        for a in shared:
+            for w in progs2:
+                for ta in [('G', a, tagm), ('G', a, [(('S', b'len'), ('I', 64)), (('S', b'big'), ('T',))])] + ([('V', [('G', a[1][0], tagm)] + a[1][1:])] if a[0] == 'V' else []):
+                    pre = 'xs limits 3000 200 - | input a50f33cc0100ff41420043 4 84 | intercept on'
+                    cs.append('%s | clone | push %s | eval %s | stack | use 1 | push %s | eval %s | stack' % (pre, cells.fmt(a), hexsrc(w), cells.fmt(ta), hexsrc(w)))
         # the words that honour the formatting tag (concat, join) must still ignore every OTHER tag, on every element kind
         for _ in range(150 if tier == 'quick' else 3000):
             def el(d=0):
